@@ -388,6 +388,32 @@ func (w *World) checkSiblingCounters(r *Report) {
 				okCount = false
 			}
 		})
+		// the node test is applied to every sibling visited: no way round the
+		// counting loop avoids the test call
+		everySibling := true
+		for _, b := range cl.Blocks {
+			for _, in := range b.Instrs {
+				c, ok := in.(*ssa.Call)
+				if !ok || c.Call.Value != testCall {
+					continue
+				}
+				for _, comp := range cfgSCCs(cl) {
+					inComp := map[*ssa.BasicBlock]bool{}
+					for _, cb := range comp {
+						inComp[cb] = true
+					}
+					if !inComp[b] {
+						continue
+					}
+					if residualCycle(comp, inComp, map[*ssa.BasicBlock]bool{b: true}) != nil {
+						everySibling = false
+					}
+				}
+			}
+		}
+		if !everySibling {
+			okCount = false
+		}
 		var ms []string
 		for m := range moves {
 			ms = append(ms, m)
@@ -401,7 +427,7 @@ func (w *World) checkSiblingCounters(r *Report) {
 		if okCount && nInc > 0 && frameOK {
 			r.ok("C03-LAST", key, w.pos(cl.Pos()), fmt.Sprintf("counts the siblings (moves %v on a copy) that pass the step's node test", sortedKeys(moves)))
 		} else {
-			r.bad("C03-LAST", key, w.pos(cl.Pos()), fmt.Sprintf("sibling counter broken: counts only under the step's node test=%v, increments=%d, moves %v (must stay among siblings)", okCount, nInc, sortedKeys(moves)))
+			r.bad("C03-LAST", key, w.pos(cl.Pos()), fmt.Sprintf("sibling counter broken: counts exactly the siblings passing the step's node test (test applied to every sibling, increment only under it)=%v, increments=%d, moves %v (must stay among siblings)", okCount, nInc, sortedKeys(moves)))
 		}
 	}
 	if n < 2 {
